@@ -866,6 +866,7 @@ apply_environment (plan const &p)
 {
   fs_reset ();
   fs_set_tests_dir (getenv ("ZSIM_TESTS_DIR") ? getenv ("ZSIM_TESTS_DIR") : "/repo/tests");
+  fs_set_fixtures_dir (getenv ("ZSIM_FIXTURES_DIR") ? getenv ("ZSIM_FIXTURES_DIR") : "");
   for (auto const &f: p.files)
     fs_add_override (f.vpath, f.backing, f.open_errno, f.patches);
   fs_set_deny_mmap (p.knob ("deny_mmap", 0) != 0);
